@@ -439,6 +439,41 @@ pub fn h_c04_cell_input() {
     reach("C04.cell_input");
 }
 
+/// a failed block move at the end of the grid on a sheet that holds cells: nothing may be lost half way
+/// (two number cells in the last rows / columns of the grid; block of <=2 lines, offset within +-2)
+pub fn h_c04_move_lines_with_cells() {
+    let rows = any_bool();
+    let last = if rows { LAST_ROW } else { LAST_COLUMN };
+    let mut ws = empty_sheet("Sheet1", 1);
+    let p = any_i32_in(last - 2, last);
+    let q = any_i32_in(last - 2, last);
+    assume(p < q);
+    if rows {
+        let mut r1: StdHashMap<i32, Cell> = StdHashMap::new();
+        r1.insert(2, Cell::NumberCell { v: 1.5, s: 0 });
+        ws.sheet_data.insert(p, r1);
+        let mut r2: StdHashMap<i32, Cell> = StdHashMap::new();
+        r2.insert(2, Cell::NumberCell { v: 2.5, s: 0 });
+        ws.sheet_data.insert(q, r2);
+    } else {
+        let mut r1: StdHashMap<i32, Cell> = StdHashMap::new();
+        r1.insert(p, Cell::NumberCell { v: 1.5, s: 0 });
+        r1.insert(q, Cell::NumberCell { v: 2.5, s: 0 });
+        ws.sheet_data.insert(2, r1);
+    }
+    let mut wb = workbook_with_cells(vec![]);
+    wb.worksheets = vec![ws];
+    let mut um = user_model_paused(wb);
+    let (line, count, delta) = (any_i32_in(last - 3, last + 1), any_i32_in(1, 2), any_i32_in(-2, 2));
+    let before = um.model.workbook.clone();
+    let (nu, nr, nq) = (um.history.undo_stack.len(), um.history.redo_stack.len(), um.send_queue.len());
+    let res = if rows { um.move_rows_action(0, line, count, delta) } else { um.move_columns_action(0, line, count, delta) };
+    if res.is_err() {
+        check("C04.move_lines_with_cells.unchanged", (um.model.workbook == before) & (um.history.undo_stack.len() == nu) & (um.history.redo_stack.len() == nr) & (um.send_queue.len() == nq));
+    }
+    reach("C04.move_lines_with_cells");
+}
+
 // ------------------------------------------------------------------------------------- formulas under undo (C01/C02)
 
 fn formula_model() -> Option<UserModel<'static>> {
